@@ -23,75 +23,130 @@
 (* packets arrive: the gateway's echo of the signature (its source is the  *)
 (* gateway's real id), other traffic, a *foreign* puzzle packet (another   *)
 (* gateway's signature: same code, other payload), or nothing.             *)
+(*                                                                         *)
+(* The protocol's side (protocol.py PortProtocol, protocol_fsm.py): the    *)
+(* three callbacks share the loop's one FIFO of call_soon handles, so the  *)
+(* queue below holds packets *and* the marks MADE / LOST in the order the   *)
+(* transport scheduled them.  PortProtocol.pkt_received() delivers the      *)
+(* message (super().pkt_received) and then shows the packet to the QoS      *)
+(* context, whose state is Inactive until connection_made(ramses=True) has  *)
+(* run and again after connection_lost(): Inactive.pkt_rcvd() logs a        *)
+(* warning for anything but a puzzle packet (its doc-string says "raise";   *)
+(* StrictInactive = TRUE is that reading - a sensitivity instance, the      *)
+(* clause NoEscape must fail there) and returns.                            *)
+(*                                                                         *)
+(* Life cycle: Lose = _ReadTransport._close() (close() by the application, *)
+(* or a SerialException in read()): call_soon(connection_lost), the init    *)
+(* task is cancelled; the reader is gone (what SerialTransport._close does;*)
+(* the harness removes it).  Reopen = the same protocol object is handed to *)
+(* a new PortTransport (transport_factory again - a re-connect), once it    *)
+(* has been told of the loss: the new transport reads the port and hands    *)
+(* over packets at once, its own signature phase starts over.               *)
 (***************************************************************************)
 EXTENDS Naturals, Sequences, FiniteSets, TLC
 
-CONSTANTS MaxTrys,      \* _SIGNATURE_MAX_TRYS
-          Sending,      \* BOOLEAN: FALSE = disable_sending (connect_sans_signature)
-          MaxRx         \* bound on packets the environment delivers
+CONSTANTS MaxTrys,        \* _SIGNATURE_MAX_TRYS
+          Sending,        \* BOOLEAN: FALSE = disable_sending (connect_sans_signature)
+          MaxRx,          \* bound on packets the environment delivers
+          MaxEpochs,      \* transports the one protocol is given, one after the other
+          StrictInactive  \* BOOLEAN: FALSE = the code (Inactive.pkt_rcvd logs); TRUE = it raises ProtocolFsmError
 
-Kinds == {"sigecho", "foreignsig", "other"}
-NoId  == "none"
-Gwy   == "gwy"          \* the id the echo of our signature comes from
+Kinds  == {"sigecho", "foreignsig", "other"}
+Puzzle == {"sigecho", "foreignsig"}       \* code 7FFF: exempt in Inactive.pkt_rcvd
+Marks  == {"MADE", "LOST"}
+NoId   == "none"
+Gwy    == "gwy"          \* the id the echo of our signature comes from
 
-VARIABLES phase,        \* "start" | "signing" | "sleeping" | "connected"
-          sent,         \* signatures written so far
+VARIABLES phase,        \* "start" | "sleeping" | "connected" | "closed"      (the transport in hand)
+          sent,         \* signatures written so far (by this transport)
           initFut,      \* "pend" | "echo" | "none"      (_init_fut)
           hgi,          \* extra[active_hgi]: NoId or an id
-          made,         \* sequence of ids connection_made was called with (must end up with exactly one)
-          queue,        \* packets handed to call_soon(protocol.pkt_received), not yet run
-          delivered,    \* packets the protocol has been given, in order
-          rxd           \* packets the reader produced, in order (ghost: what must be delivered)
-vars == <<phase, sent, initFut, hgi, made, queue, delivered, rxd>>
+          made,         \* ids connection_made was called with for this transport (must end up with exactly one)
+          queue,        \* call_soon handles not yet run: packets for protocol.pkt_received, MADE, LOST - one FIFO
+          delivered,    \* packets the protocol has been given, in order (all transports)
+          rxd,          \* packets the readers produced, in order (ghost: what must be delivered)
+          epoch,        \* 1 + number of re-connects so far
+          ctx,          \* the QoS context of the protocol: "Inactive" | "Idle"
+          escaped       \* exceptions that left protocol.pkt_received (into the loop's exception handler)
+vars == <<phase, sent, initFut, hgi, made, queue, delivered, rxd, epoch, ctx, escaped>>
+
+Pkts(q) == SelectSeq(q, LAMBDA x : x \in Kinds)
 
 Init == /\ phase = "start" /\ sent = 0 /\ initFut = "pend" /\ hgi = NoId /\ made = <<>>
         /\ queue = <<>> /\ delivered = <<>> /\ rxd = <<>>
+        /\ epoch = 1 /\ ctx = "Inactive" /\ escaped = 0
 
 (* the task's first step *)
 Begin ==
   /\ phase = "start"
   /\ IF Sending
      THEN /\ phase' = "sleeping" /\ sent' = 1                  \* first write, then sleep
-          /\ UNCHANGED <<initFut, hgi, made>>
-     ELSE /\ phase' = "connected" /\ initFut' = "none" /\ hgi' = NoId /\ made' = Append(made, NoId)
+          /\ UNCHANGED <<initFut, hgi, queue>>
+     ELSE /\ phase' = "connected" /\ initFut' = "none" /\ hgi' = NoId /\ queue' = Append(queue, "MADE")
           /\ UNCHANGED sent
-  /\ UNCHANGED <<queue, delivered, rxd>>
+  /\ UNCHANGED <<made, delivered, rxd, epoch, ctx, escaped>>
 
 (* the sleep after a write is over *)
 Wake ==
   /\ phase = "sleeping"
   /\ IF initFut = "echo"
-     THEN /\ phase' = "connected" /\ made' = Append(made, hgi) /\ UNCHANGED <<sent, initFut, hgi>>
+     THEN /\ phase' = "connected" /\ queue' = Append(queue, "MADE") /\ UNCHANGED <<sent, initFut, hgi>>
      ELSE IF sent < MaxTrys
-     THEN /\ sent' = sent + 1 /\ UNCHANGED <<phase, initFut, hgi, made>>          \* write again, sleep again
-     ELSE /\ phase' = "connected" /\ initFut' = "none" /\ hgi' = NoId /\ made' = Append(made, NoId)
+     THEN /\ sent' = sent + 1 /\ UNCHANGED <<phase, initFut, hgi, queue>>         \* write again, sleep again
+     ELSE /\ phase' = "connected" /\ initFut' = "none" /\ hgi' = NoId /\ queue' = Append(queue, "MADE")
           /\ UNCHANGED sent
-  /\ UNCHANGED <<queue, delivered, rxd>>
+  /\ UNCHANGED <<made, delivered, rxd, epoch, ctx, escaped>>
 
 (* the reader produced a valid packet *)
 Rx(k) ==
+  /\ phase # "closed"
   /\ Len(rxd) < MaxRx
   /\ rxd' = Append(rxd, k)
   /\ queue' = Append(queue, k)
   /\ IF initFut = "pend" /\ k = "sigecho" /\ sent > 0
      THEN initFut' = "echo" /\ hgi' = Gwy
      ELSE UNCHANGED <<initFut, hgi>>
-  /\ UNCHANGED <<phase, sent, made, delivered>>
+  /\ UNCHANGED <<phase, sent, made, delivered, epoch, ctx, escaped>>
 
-(* the event loop runs a queued protocol.pkt_received *)
+(* the event loop runs the oldest queued handle *)
 Deliver ==
   /\ queue # <<>>
-  /\ delivered' = Append(delivered, Head(queue)) /\ queue' = Tail(queue)
-  /\ UNCHANGED <<phase, sent, initFut, hgi, made, rxd>>
+  /\ queue' = Tail(queue)
+  /\ LET h == Head(queue) IN
+       CASE h = "MADE" -> /\ made' = Append(made, hgi) /\ ctx' = "Idle"         \* PortProtocol.connection_made(ramses=True)
+                          /\ UNCHANGED <<delivered, escaped>>
+         [] h = "LOST" -> /\ ctx' = "Inactive"                                  \* PortProtocol.connection_lost
+                          /\ UNCHANGED <<made, delivered, escaped>>
+         [] OTHER      -> /\ delivered' = Append(delivered, h)                  \* PortProtocol.pkt_received: the message
+                          /\ escaped' = IF StrictInactive /\ ctx = "Inactive" /\ h \notin Puzzle   \* ... then the context
+                                        THEN escaped + 1 ELSE escaped
+                          /\ UNCHANGED <<made, ctx>>
+  /\ UNCHANGED <<phase, sent, initFut, hgi, rxd, epoch>>
 
-Next == Begin \/ Wake \/ Deliver \/ \E k \in Kinds : Rx(k)
+(* the transport the protocol has been told about is closed / its port dies *)
+Lose ==
+  /\ phase = "connected" /\ Len(made) = 1
+  /\ phase' = "closed"
+  /\ queue' = Append(queue, "LOST")
+  /\ UNCHANGED <<sent, initFut, hgi, made, delivered, rxd, epoch, ctx, escaped>>
+
+(* a re-connect: the protocol (told of the loss) gets a new transport *)
+Reopen ==
+  /\ phase = "closed" /\ queue = <<>> /\ epoch < MaxEpochs
+  /\ epoch' = epoch + 1
+  /\ phase' = "start" /\ sent' = 0 /\ initFut' = "pend" /\ hgi' = NoId /\ made' = <<>>
+  /\ UNCHANGED <<queue, delivered, rxd, ctx, escaped>>
+
+Next == Begin \/ Wake \/ Deliver \/ Lose \/ Reopen \/ \E k \in Kinds : Rx(k)
 Spec == Init /\ [][Next]_vars /\ WF_vars(Begin) /\ WF_vars(Wake) /\ WF_vars(Deliver)
 
 -----------------------------------------------------------------------------
-TypeOK == /\ phase \in {"start", "signing", "sleeping", "connected"} /\ sent \in 0..MaxTrys
+TypeOK == /\ phase \in {"start", "sleeping", "connected", "closed"} /\ sent \in 0..MaxTrys
           /\ initFut \in {"pend", "echo", "none"} /\ hgi \in {NoId, Gwy} /\ Len(made) <= 1
+          /\ epoch \in 1..MaxEpochs /\ ctx \in {"Inactive", "Idle"} /\ escaped \in Nat
+          /\ \A i \in 1..Len(queue) : queue[i] \in Kinds \cup Marks
 
-(* the protocol is told about its transport exactly once ... *)
+(* the protocol is told about each of its transports exactly once ... *)
 MadeAtMostOnce == Len(made) <= 1
 EventuallyMade == <>(Len(made) = 1)
 (* ... with the id of the gateway iff the echo of the signature was seen in time, never a foreign id *)
@@ -102,7 +157,13 @@ ReportedIdStable == Len(made) = 1 => hgi = made[1]
 SigBudget == sent <= MaxTrys /\ (~Sending => sent = 0)
 (* reception does not wait for the connection: every packet the reader produced reaches the protocol, once, in
    order, whatever the phase (C01: "frames delivered depend only on the bytes received") *)
-DeliveredIsPrefix == /\ Len(delivered) + Len(queue) = Len(rxd)
-                     /\ delivered \o queue = rxd
+DeliveredIsPrefix == /\ Len(delivered) + Len(Pkts(queue)) = Len(rxd)
+                     /\ delivered \o Pkts(queue) = rxd
 EventuallyAllDelivered == <>[](queue = <<>>)
+(* C01 a2: whatever the phase of the connection - never connected, connected, lost, being re-connected - nothing
+   leaves protocol.pkt_received *)
+NoEscape == escaped = 0
+(* the sender's context follows the callbacks (Idle only between a connection_made and the next connection_lost) *)
+CtxTracksConnection == /\ ctx = "Idle" => Len(made) = 1
+                       /\ (phase = "closed" /\ queue = <<>>) => ctx = "Inactive"
 =============================================================================
